@@ -1,4 +1,50 @@
-//! `cargo run --release -p <crate> --example run -- <runs>`: run the engine stand-alone.
+//! `cargo run --release -p cidsim --example run -- <runs>`: run the engine stand-alone.
+//! `run --replay <file>` re-executes the case of a replay file; `run --determinism <n>` executes n cases twice.
+#[global_allocator]
+static A: simcore::alloc::CountingAlloc = simcore::alloc::CountingAlloc;
+
+use simcore::Engine;
+
 fn main() {
-    println!("engine not implemented yet");
+    let args: Vec<String> = std::env::args().collect();
+    if args.get(1).map(|s| s.as_str()) == Some("--replay") {
+        let text = std::fs::read_to_string(&args[2]).expect("read replay file");
+        let v: serde_json::Value = serde_json::from_str(&text).expect("replay file is json");
+        match simcore::engine::replay_case(&cidsim::CidSim, &v) {
+            Ok((true, sigs)) => println!("reproduced {sigs:?}"),
+            Ok((false, sigs)) => {
+                println!("NOT reproduced; got {sigs:?}");
+                std::process::exit(2);
+            }
+            Err(e) => {
+                println!("harness error: {e}");
+                std::process::exit(2);
+            }
+        }
+        return;
+    }
+    if args.get(1).map(|s| s.as_str()) == Some("--determinism") {
+        let n: u64 = args.get(2).and_then(|s| s.parse().ok()).unwrap_or(2000);
+        let eng = cidsim::CidSim;
+        let mut bad = 0;
+        for i in 0..n {
+            let seed = simcore::mix(1, "C14/cidsim", i);
+            let case = eng.generate(i, seed, simcore::Tier::Quick);
+            let a = simcore::engine::execute_case(&eng, &case, seed);
+            let b = simcore::engine::execute_case(&eng, &case, seed);
+            let sa: Vec<String> = a.violations.iter().map(|v| v.signature()).collect();
+            let sb: Vec<String> = b.violations.iter().map(|v| v.signature()).collect();
+            if a.trace_hash != b.trace_hash || sa != sb || a.stats.0 != b.stats.0 {
+                println!("run {i} seed {seed} differs: {:016x} {sa:?} vs {:016x} {sb:?}", a.trace_hash, b.trace_hash);
+                bad += 1;
+            }
+        }
+        println!("determinism: {n} cases executed twice, {bad} differ");
+        std::process::exit(if bad > 0 { 2 } else { 0 });
+    }
+    let runs: u64 = args.get(1).and_then(|s| s.parse().ok()).unwrap_or(30000);
+    let n = simcore::selftest::run(&cidsim::CidSim, "C14", runs, simcore::Tier::Quick);
+    if n > 0 {
+        std::process::exit(1);
+    }
 }
